@@ -96,6 +96,9 @@ func scenC16(run *vlab.Run, sx, tmp string) {
 			if i%3 == 0 {
 				c.NRanges = []int{201, 401, 450}[rng.Intn(3)]
 			}
+			if i%4 == 3 { // reserved for the single-chunk "replies keep arriving" variant
+				c.NRanges = 1 + rng.Intn(3)
+			}
 			if c.NRanges > 200 {
 				c.Subnet = fmt.Sprintf("%s/%d", ipS(base), 31+rng.Intn(2))
 			}
@@ -124,174 +127,190 @@ func scenC16(run *vlab.Run, sx, tmp string) {
 			continue
 		}
 		run.Case(fmt.Sprintf("c16w%04d", i), c)
-		exp, _ := wireExpected(&c.wireSpec)
-		delay := time.Duration(c.DelayMs) * time.Millisecond
-		if c.DelayMs == 0 {
-			delay = 300 * time.Millisecond
-		}
-		// chunk of a probe = index of its port in the list / 200
-		portIdx := map[uint16]int{}
-		if c.Ports != "" {
-			for j, it := range strings.Split(c.Ports, ",") {
-				var p int
-				fmt.Sscanf(it, "%d", &p)
-				portIdx[uint16(p)] = j
+		// a reply that is not reported although it arrived in time is judged on three runs of the same
+		// scenario: the bound is an upper one for sx (it must get to the frame before its own timer fires),
+		// which a starved process can miss once; a defect misses it every time
+		for attempt := 0; attempt < 3; attempt++ {
+			final := attempt == 2
+			softMiss := false
+			exp, _ := wireExpected(&c.wireSpec)
+			delay := time.Duration(c.DelayMs) * time.Millisecond
+			if c.DelayMs == 0 {
+				delay = 300 * time.Millisecond
 			}
-		}
-		chunkOf := func(port uint16) int { return portIdx[port] / 200 }
-		perChunk := make([]int, c.Chunks)
-		for k, n := range exp {
-			perChunk[chunkOf(uint16(k))] += int(n)
-		}
-		var mu sync.Mutex
-		seen := make([]int, c.Chunks)
-		var lateRecs []string
-		var lastProbeSeen time.Time
-		stopReplies := make(chan struct{})
-		prng := rand.New(rand.NewSource(int64(i)))
-		args, stdin := wireArgs(tmp, &c.wireSpec)
-		wd := 120 * time.Second
-		if c.KeepReplying {
-			wd = delay + 15*time.Second
-		}
-		spec := &CaseSpec{Args: args, Stdin: stdin, Setup: commonWorld("tap"), Sniff: []string{"tap0"}, Timeout: wd,
-			OnTx: func(cr *CaseRun, d *Dev, frame []byte) {
-				dec, a, port, ok := decodeProbe(c.Kind, frame, oracle.LinkEthernet)
-				if !ok {
-					return
+			// chunk of a probe = index of its port in the list / 200
+			portIdx := map[uint16]int{}
+			if c.Ports != "" {
+				for j, it := range strings.Split(c.Ports, ",") {
+					var p int
+					fmt.Sscanf(it, "%d", &p)
+					portIdx[uint16(p)] = j
 				}
-				ch := chunkOf(port)
-				mu.Lock()
-				seen[ch]++
-				last := seen[ch] == perChunk[ch]
-				mu.Unlock()
-				if c.AfterClose && ch+1 < c.Chunks {
-					fr, _ := replyFor(c.Kind, oracle.LinkEthernet, dec, a, port, prng)
-					time.AfterFunc(delay*3/2+20*time.Millisecond, func() { cr.Inject(d, fr) })
-				}
-				if last && c.KeepReplying && ch == c.Chunks-1 {
-					mu.Lock()
-					lastProbeSeen = time.Now()
-					mu.Unlock()
-					go func() {
-						for k := 0; k < 400; k++ {
-							select {
-							case <-stopReplies:
-								return
-							case <-time.After(delay / 4):
-							}
-							fr, _ := replyFor(c.Kind, oracle.LinkEthernet, dec, a, port, prng)
-							cr.Inject(d, fr)
-						}
-					}()
-				}
-				if last && c.Late {
-					fr, rec := replyFor(c.Kind, oracle.LinkEthernet, dec, a, port, prng)
-					mu.Lock()
-					lateRecs = append(lateRecs, rec)
-					mu.Unlock()
-					time.AfterFunc(delay*4/10, func() { cr.Inject(d, fr) })
-				}
-			}}
-		res := RunCase(sx, spec)
-		close(stopReplies)
-		run.Eval(1)
-		desc := map[string]interface{}{"case": c, "argv": strings.Join(args, " ")}
-		if c.KeepReplying && res.SetupErr == "" && res.crashText() == "" {
-			mu.Lock()
-			lp := lastProbeSeen
-			mu.Unlock()
-			if !lp.IsZero() {
-				over := res.ExitWall.Sub(lp) - delay
-				if res.TimedOut || over > 5*time.Second {
-					if res.Stall > 500*time.Millisecond {
-						run.Inconclusive(fmt.Sprintf("late exit but the monitor stalled %v", res.Stall))
-					} else {
-						run.Violation("no-exit-while-replies-arrive", fmt.Sprintf("replies kept arriving every %v after the last probe; sx was still running %v after the exit delay %v was over (watchdog fired: %v): %s", delay/4, over, delay, res.TimedOut, tailStr(strings.Join(args, " "), 200)), desc)
+			}
+			chunkOf := func(port uint16) int { return portIdx[port] / 200 }
+			perChunk := make([]int, c.Chunks)
+			for k, n := range exp {
+				perChunk[chunkOf(uint16(k))] += int(n)
+			}
+			var mu sync.Mutex
+			seen := make([]int, c.Chunks)
+			var lateRecs []string
+			var lastProbeSeen time.Time
+			stopReplies := make(chan struct{})
+			prng := rand.New(rand.NewSource(int64(i)))
+			args, stdin := wireArgs(tmp, &c.wireSpec)
+			wd := 120 * time.Second
+			if c.KeepReplying {
+				wd = delay + 15*time.Second
+			}
+			spec := &CaseSpec{Args: args, Stdin: stdin, Setup: commonWorld("tap"), Sniff: []string{"tap0"}, Timeout: wd,
+				OnTx: func(cr *CaseRun, d *Dev, frame []byte) {
+					dec, a, port, ok := decodeProbe(c.Kind, frame, oracle.LinkEthernet)
+					if !ok {
+						return
 					}
+					ch := chunkOf(port)
+					mu.Lock()
+					seen[ch]++
+					last := seen[ch] == perChunk[ch]
+					mu.Unlock()
+					if c.AfterClose && ch+1 < c.Chunks {
+						fr, _ := replyFor(c.Kind, oracle.LinkEthernet, dec, a, port, prng)
+						time.AfterFunc(delay*3/2+20*time.Millisecond, func() { cr.Inject(d, fr) })
+					}
+					if last && c.KeepReplying && ch == c.Chunks-1 {
+						mu.Lock()
+						lastProbeSeen = time.Now()
+						mu.Unlock()
+						go func() {
+							for k := 0; k < 400; k++ {
+								select {
+								case <-stopReplies:
+									return
+								case <-time.After(delay / 4):
+								}
+								fr, _ := replyFor(c.Kind, oracle.LinkEthernet, dec, a, port, prng)
+								cr.Inject(d, fr)
+							}
+						}()
+					}
+					if last && c.Late {
+						fr, rec := replyFor(c.Kind, oracle.LinkEthernet, dec, a, port, prng)
+						mu.Lock()
+						lateRecs = append(lateRecs, rec)
+						mu.Unlock()
+						time.AfterFunc(delay*4/10, func() { cr.Inject(d, fr) })
+					}
+				}}
+			res := RunCase(sx, spec)
+			close(stopReplies)
+			run.Eval(1)
+			desc := map[string]interface{}{"case": c, "argv": strings.Join(args, " ")}
+			if c.KeepReplying && res.SetupErr == "" && res.crashText() == "" {
+				mu.Lock()
+				lp := lastProbeSeen
+				mu.Unlock()
+				if !lp.IsZero() {
+					over := res.ExitWall.Sub(lp) - delay
+					if res.TimedOut || over > 5*time.Second {
+						if res.Stall > 500*time.Millisecond {
+							run.Inconclusive(fmt.Sprintf("late exit but the monitor stalled %v", res.Stall))
+						} else {
+							run.Violation("no-exit-while-replies-arrive", fmt.Sprintf("replies kept arriving every %v after the last probe; sx was still running %v after the exit delay %v was over (watchdog fired: %v): %s", delay/4, over, delay, res.TimedOut, tailStr(strings.Join(args, " "), 200)), desc)
+						}
+						break
+					}
+					run.Count("exits_despite_continuing_replies", 1)
+				}
+			}
+			if !baseChecks(run, res, desc, true) {
+				break
+			}
+			if res.Drops > 0 {
+				run.Inconclusive(fmt.Sprintf("the timestamp sniffer dropped %d frames", res.Drops))
+				break
+			}
+			// kernel timestamps per chunk
+			firstK := make([]time.Time, c.Chunks)
+			lastK := make([]time.Time, c.Chunks)
+			nSniff := 0
+			for _, e := range res.Sniffed("tap0") {
+				_, _, port, ok := decodeProbe(c.Kind, e.Data, oracle.LinkEthernet)
+				if !ok || e.KTS.IsZero() {
 					continue
 				}
-				run.Count("exits_despite_continuing_replies", 1)
+				nSniff++
+				ch := chunkOf(port)
+				if firstK[ch].IsZero() || e.KTS.Before(firstK[ch]) {
+					firstK[ch] = e.KTS
+				}
+				if e.KTS.After(lastK[ch]) {
+					lastK[ch] = e.KTS
+				}
 			}
-		}
-		if !baseChecks(run, res, desc, true) {
-			continue
-		}
-		if res.Drops > 0 {
-			run.Inconclusive(fmt.Sprintf("the timestamp sniffer dropped %d frames", res.Drops))
-			continue
-		}
-		// kernel timestamps per chunk
-		firstK := make([]time.Time, c.Chunks)
-		lastK := make([]time.Time, c.Chunks)
-		nSniff := 0
-		for _, e := range res.Sniffed("tap0") {
-			_, _, port, ok := decodeProbe(c.Kind, e.Data, oracle.LinkEthernet)
-			if !ok || e.KTS.IsZero() {
-				continue
+			total := 0
+			for _, n := range perChunk {
+				total += n
 			}
-			nSniff++
-			ch := chunkOf(port)
-			if firstK[ch].IsZero() || e.KTS.Before(firstK[ch]) {
-				firstK[ch] = e.KTS
+			if nSniff != total {
+				run.Inconclusive(fmt.Sprintf("sniffer saw %d probes, %d expected (coverage is C01's business)", nSniff, total))
+				break
 			}
-			if e.KTS.After(lastK[ch]) {
-				lastK[ch] = e.KTS
-			}
-		}
-		total := 0
-		for _, n := range perChunk {
-			total += n
-		}
-		if nSniff != total {
-			run.Inconclusive(fmt.Sprintf("sniffer saw %d probes, %d expected (coverage is C01's business)", nSniff, total))
-			continue
-		}
-		const eps = 3 * time.Millisecond
-		final := lastK[c.Chunks-1]
-		if waited := res.ExitWall.Sub(final); waited < delay-eps {
-			run.Violation("exit-before-delay", fmt.Sprintf("sx exited %v after its last probe left (kernel timestamp); the exit delay is %v: %s", waited, delay, strings.Join(args, " ")), desc)
-		} else {
-			run.Count("exit_delay_lower_bounds_checked", 1)
-			run.Max("max_exit_overshoot_ms", (waited - delay).Milliseconds())
-		}
-		for ch := 0; ch+1 < c.Chunks; ch++ {
-			if gap := firstK[ch+1].Sub(lastK[ch]); gap < delay-eps {
-				run.Violation("chunk-delay-skipped", fmt.Sprintf("the first probe of chunk %d left %v after the last probe of chunk %d; each chunk must wait the exit delay %v for late replies: %s", ch+1, gap, ch, delay, tailStr(strings.Join(args, " "), 200)), desc)
+			const eps = 3 * time.Millisecond
+			finalK := lastK[c.Chunks-1]
+			if waited := res.ExitWall.Sub(finalK); waited < delay-eps {
+				run.Violation("exit-before-delay", fmt.Sprintf("sx exited %v after its last probe left (kernel timestamp); the exit delay is %v: %s", waited, delay, strings.Join(args, " ")), desc)
 			} else {
-				run.Count("chunk_gaps_checked", 1)
+				run.Count("exit_delay_lower_bounds_checked", 1)
+				run.Max("max_exit_overshoot_ms", (waited - delay).Milliseconds())
 			}
-		}
-		if c.Late {
-			got := map[string]int{}
-			for _, l := range res.Stdout {
-				if rec, err := parseRecord(strings.TrimSpace(l)); err == nil {
-					got[rec]++
-				}
-			}
-			for _, rec := range lateRecs {
-				if got[rec] == 0 {
-					if res.Stall > 30*time.Millisecond {
-						run.Inconclusive(fmt.Sprintf("late reply not reported but the monitor stalled %v", res.Stall))
-						continue
-					}
-					run.Violation("late-reply-lost", fmt.Sprintf("a reply injected %v after the last probe of a chunk (exit delay %v) was not reported (%q): %s", delay*4/10, delay, rec, tailStr(strings.Join(args, " "), 200)), desc)
+			for ch := 0; ch+1 < c.Chunks; ch++ {
+				if gap := firstK[ch+1].Sub(lastK[ch]); gap < delay-eps {
+					run.Violation("chunk-delay-skipped", fmt.Sprintf("the first probe of chunk %d left %v after the last probe of chunk %d; each chunk must wait the exit delay %v for late replies: %s", ch+1, gap, ch, delay, tailStr(strings.Join(args, " "), 200)), desc)
 				} else {
-					got[rec]--
-					run.Count("late_replies_reported", 1)
+					run.Count("chunk_gaps_checked", 1)
 				}
 			}
-		}
-		run.Count("c16_wire_runs", 1)
-		if c.AfterClose {
-			run.Count("runs_with_replies_after_chunk_end", 1)
-		}
-		if c.Chunks > 1 {
-			run.Count("c16_chunked_runs", 1)
-		}
-		run.Distinct(strings.Join(args, " "))
-		if run.WantSample() && c.Chunks > 1 {
-			run.Sample(map[string]interface{}{"argv_tail": tailStr(strings.Join(args, " "), 100), "chunks": c.Chunks, "exit_after_last_probe_ms": res.ExitWall.Sub(final).Milliseconds(), "delay_ms": delay.Milliseconds()})
+			if c.Late {
+				got := map[string]int{}
+				for _, l := range res.Stdout {
+					if rec, err := parseRecord(strings.TrimSpace(l)); err == nil {
+						got[rec]++
+					}
+				}
+				for _, rec := range lateRecs {
+					if got[rec] == 0 {
+						if res.Stall > 30*time.Millisecond {
+							run.Inconclusive(fmt.Sprintf("late reply not reported but the monitor stalled %v", res.Stall))
+							continue
+						}
+						if !final {
+							softMiss = true
+							run.Count("late_reply_misses_retried", 1)
+							continue
+						}
+						run.Violation("late-reply-lost", fmt.Sprintf("a reply injected %v after the last probe of a chunk (exit delay %v) was not reported (%q): %s", delay*4/10, delay, rec, tailStr(strings.Join(args, " "), 200)), desc)
+					} else {
+						got[rec]--
+						run.Count("late_replies_reported", 1)
+					}
+				}
+			}
+			if softMiss {
+				continue // run the same scenario again
+			}
+			run.Count("c16_wire_runs", 1)
+			if c.AfterClose {
+				run.Count("runs_with_replies_after_chunk_end", 1)
+			}
+			if c.Chunks > 1 {
+				run.Count("c16_chunked_runs", 1)
+			}
+			run.Distinct(strings.Join(args, " "))
+			if run.WantSample() && c.Chunks > 1 {
+				run.Sample(map[string]interface{}{"argv_tail": tailStr(strings.Join(args, " "), 100), "chunks": c.Chunks, "exit_after_last_probe_ms": res.ExitWall.Sub(finalK).Milliseconds(), "delay_ms": delay.Milliseconds()})
+			}
+			break
 		}
 	}
 }
